@@ -11,10 +11,14 @@ tie:   the real `Bitarray`, `Memory.get_bits/incr_bits`, the `Cache` facade, `ge
 from __future__ import annotations
 
 import json
+import os
+import subprocess
+import sys
 from pathlib import Path
 
 from .. import bitsbloom as bb
 from .. import vtime
+from ..c18_blocks import exhaustive_block
 from ..core import ROOT, Check, HarnessError, ddmin, proof_stage
 
 PROP = "C18"
@@ -167,41 +171,13 @@ PARAM_FPS = [0.0001, 0.001, 0.01, 0.1, 0.5, 1, 2, 3, 5, 7.5, 10, 15, 20, 25, 30,
 # exhaustive bit-field sub-spaces (fast path: no per-case dicts)
 # ------------------------------------------------------------------------------------------------
 
-def exhaustive_block(i: int, w: int, bymax: int, abits: int):
-    """all (by in [-bymax, bymax], a < 2^abits) for one (index, width): returns (evaluations, non-trivial count,
-    first failing case or None)"""
-    B = bb.bitarray_cls()
-    mask = (1 << w) - 1
-    sh = i * w
-    lines, impl = [], []
-    nontrivial = 0
-    bad = None
-    for by in range(-bymax, bymax + 1):
-        for a in range(1 << abits):
-            b = B(str(a))
-            b.incr(i, w, by)
-            got = f"a={b.to_int()} v={b.get(i, w)}"
-            old = (a >> sh) & mask
-            raw = old + by
-            newv = 0 if raw < 0 else mask if raw > mask else raw
-            if got != f"a={a + ((newv - old) << sh)} v={newv}" and bad is None:
-                bad = {"kind": "incr1", "op": "incr", "a": a, "i": i, "w": w, "by": by}
-            if raw < 0 or raw > mask or (a & ~(mask << sh) and w & (w - 1)):
-                nontrivial += 1
-            lines.append(f"incr {a} {i} {w} {by}")
-            impl.append(got)
-    answers = bb.DRIVER.ask(lines)
-    if bad is None:
-        for line, got, ans in zip(lines, impl, answers):
-            if got != ans:
-                _, a, _, _, by = line.split()
-                bad = {"kind": "incr1", "op": "incr", "a": int(a), "i": i, "w": w, "by": int(by)}
-                break
-    return len(lines), nontrivial, bad
-
-
-def _block(args):
-    return exhaustive_block(*args)
+def in_enumerated(chk: Check, c: dict) -> bool:
+    """is this generated case a member of the sub-space this tier enumerates (so it is not counted twice)?"""
+    if c["kind"] != "incr1" or c["op"] != "incr":
+        return False
+    if chk.thorough:
+        return c["i"] < 8 and 1 <= c["w"] <= 4 and abs(c["by"]) <= 20 and c["a"] < 1 << 12
+    return c["i"] < 4 and 1 <= c["w"] <= 3 and abs(c["by"]) <= 4 and c["a"] < 1 << 6
 
 
 def run_exhaustive(chk: Check):
@@ -214,10 +190,15 @@ def run_exhaustive(chk: Check):
         blocks = [(i, w, 4, 6) for i in range(4) for w in range(1, 4)]
         desc = "index<4 x width 1..3 x |by|<=4 x value<2^6"
     if chk.thorough:
-        import multiprocessing as mp
-
-        with mp.get_context("fork").Pool(min(8, mp.cpu_count())) as pool:
-            results = pool.map(_block, blocks, chunksize=1)
+        nproc = min(8, os.cpu_count() or 1)
+        procs = [subprocess.Popen([sys.executable, "-m", "harness.c18_blocks"] + [",".join(map(str, b)) for b in blocks[n::nproc]],
+                                  cwd=ROOT, stdout=subprocess.PIPE, stderr=subprocess.PIPE, text=True) for n in range(nproc)]
+        results = []
+        for p in procs:
+            out, err = p.communicate()
+            if p.returncode != 0:
+                raise HarnessError(f"enumeration worker failed: {err[-400:]}")
+            results += [tuple(r) for r in json.loads(out)]
     else:
         results = [exhaustive_block(*b) for b in blocks]
     total = sum(r[0] for r in results)
@@ -272,6 +253,17 @@ def shrink(case: dict, want_spec: bool) -> dict:
         cur = dict(case, key=key)
         if cur["key"] and f(dict(cur, key="")):
             cur = dict(cur, key="")
+        for _ in range(60):
+            k, m = cur["k"], cur["m"]
+            cands = [(k // 2, m // 2), (k // 2, m), (k - 1, m - 1), (k, m - 1), (k - 1, m)]
+            for k2, m2 in cands:
+                if 0 <= k2 and 0 <= m2 and (k2, m2) != (k, m) and (k2 <= m2) == (k <= m) and f(dict(cur, k=k2, m=m2)):
+                    cur = dict(cur, k=k2, m=m2)
+                    break
+            else:
+                break
+        if cur["algs"] != "real" and f(dict(cur, algs="real")):
+            cur = dict(cur, algs="real")
         return cur
     if kind == "bloom":
         return dict(case, steps=ddmin(case["steps"], lambda s: f(dict(case, steps=s))))
@@ -284,16 +276,24 @@ SIGNATURES = {"incr1": "bitfield-single-command", "hist": "bitfield-history", "i
               "dual": "dual_bloom-model", "params": "params_for"}
 
 
-def report(chk: Check, case: dict, origin: str):
+def report(chk: Check, case: dict, origin: str, seen: set) -> bool:
+    """shrink one failing case and report it (False if an identical shrunk case was reported already)"""
     first = bb.evaluate([case])[0]
     again = bb.evaluate([case])[0]
     if (first.diff_spec, first.diff_model) != (again.diff_spec, again.diff_model):
         raise HarnessError(f"case is not a pure function of its input: {case}")
+    if not first.bad:
+        raise HarnessError(f"failing case does not fail when run alone: {case}")
     want_spec = first.diff_spec is not None
     small = shrink(case, want_spec)
     r = bb.evaluate([small])[0]
     if not r.bad:
         small, r = case, first
+    ident = json.dumps(small, sort_keys=True)
+    text = f"{small['kind']}|{r.diff_spec}|{r.diff_model}"
+    if ident in seen or text in seen:
+        return False
+    seen.update((ident, text))
     replay = {"case": small, "trace": r.trace, "diff_vs_property": r.diff_spec, "diff_vs_model": r.diff_model, "origin": origin,
               "replay_cmd": "./check C18 --replay <this file>"}
     if r.diff_spec is not None:
@@ -301,6 +301,30 @@ def report(chk: Check, case: dict, origin: str):
     else:
         chk.violation("correspondence broken (the property still holds on this case): " + r.diff_model,
                       dict(replay, broken=f"correspondence Lean model <-> cashews ({small['kind']})"), signature=None, no_input=True)
+    return True
+
+
+def report_all(chk: Check, bad: list) -> int:
+    """`bad` = every failing (origin, case, Res) of the whole run.  Cases on which the implementation contradicts the
+    PROPERTY come first (at most three, different kinds of case preferred); a difference from the model alone is
+    reported (no-failing-input-found) only when the whole search found no case that contradicts the property."""
+    seen: set = set()
+    reported = 0
+    spec = [b for b in bad if b[2].diff_spec is not None]
+    pool = spec if spec else bad
+    limit = 3 if spec else 2
+    order, kinds = [], set()
+    for b in pool:                       # one per kind first
+        if b[1]["kind"] not in kinds:
+            kinds.add(b[1]["kind"])
+            order.append(b)
+    order += [b for b in pool if b not in order][:10]
+    for origin, case, _ in order:
+        if reported >= limit:
+            break
+        if report(chk, case, origin, seen):
+            reported += 1
+    return reported
 
 
 def corpus_cases():
@@ -344,7 +368,7 @@ def run(chk: Check) -> int:
         for fp in PARAM_FPS:
             cases.append(("grid:params", {"kind": "params", "capacity": cap, "fp": fp}))
 
-    found = 0
+    bad: list = []
     evaluations = 0
     by_kind: dict = {}
     interesting: dict = {}
@@ -353,17 +377,28 @@ def run(chk: Check) -> int:
     reprobe_hist: dict = {}
     max_reprobe: dict = {}
     bloom_added_queries = 0
-    CH = 4000
-    for lo in range(0, len(cases), CH):
-        chunk = cases[lo:lo + CH]
+    CHUNK = {"incr1": 20000, "hist": 2000, "idx": 1000, "bloom": 40, "dual": 100, "params": 5000}
+    chunks = []
+    for kind, size in CHUNK.items():
+        sel = [oc for oc in cases if oc[1]["kind"] == kind]
+        chunks += [sel[lo:lo + size] for lo in range(0, len(sel), size)]
+    if sum(len(c) for c in chunks) != len(cases):
+        raise HarnessError("case of unknown kind")
+    phase_s: dict = {}
+    for chunk in chunks:
+        t1 = vtime.REAL_PERF()
         results = bb.evaluate([c for _, c in chunk])
+        k0 = chunk[0][1]["kind"]
+        phase_s[k0] = round(phase_s.get(k0, 0) + vtime.REAL_PERF() - t1, 2)
+        if os.environ.get("VERIF_DEBUG"):
+            print(f"[c18] {k0} chunk of {len(chunk)}: {vtime.REAL_PERF() - t1:.1f}s (total {vtime.REAL_PERF() - t0:.0f}s)", file=sys.stderr, flush=True)
         for (origin, case), r in zip(chunk, results):
             evaluations += 1
             kind = case["kind"]
             by_kind[kind] = by_kind.get(kind, 0) + 1
             for s in r.stats:
                 interesting[f"{kind}:{s}"] = interesting.get(f"{kind}:{s}", 0) + 1
-            if r.stats - {"params_ok", "params_rejected"}:
+            if r.stats - {"params_ok", "params_rejected"} and not in_enumerated(chk, case):
                 distinct.add(hash(json.dumps(case, sort_keys=True)))
             if kind == "idx" and "max_reprobes" in r.trace[0]:
                 re_ = r.trace[0]["max_reprobes"]
@@ -374,20 +409,19 @@ def run(chk: Check) -> int:
                 bloom_added_queries += sum(1 for st in r.trace[1:] if st["kind"] == "query" and st["impl"] == "T")
             if kind not in samples and r.stats and len(json.dumps(case)) < 400 and not origin.startswith("corpus"):
                 samples[kind] = {"case": case, "impl": [t.get("impl") for t in r.trace if isinstance(t, dict) and "impl" in t][:8]}
-            if r.bad and found < 3:
-                found += 1
-                report(chk, case, origin)
-        if found >= 3:
-            break
+            if r.bad:
+                bad.append((origin, case, r))
     # exhaustive sub-space of the bit-field commands
+    t1 = vtime.REAL_PERF()
     ex_desc, ex_total, ex_nontrivial, ex_bad = run_exhaustive(chk)
+    phase_s["incr1_exhaustive"] = round(vtime.REAL_PERF() - t1, 2)
     evaluations += ex_total
     by_kind["incr1_exhaustive"] = ex_total
-    for case in ex_bad[:max(0, 3 - found)]:
-        found += 1
-        report(chk, case, "exhaustive")
+    for case in ex_bad[:3]:
+        bad.append(("exhaustive", case, bb.evaluate([case])[0]))
+    found = report_all(chk, bad) if bad else 0
     if proof is not None:
-        chk.proof_broken(proof, found > 0)
+        chk.proof_broken(proof, any(b[2].diff_spec is not None for b in bad))
     chk.coverage.update({
         "evaluations": evaluations,
         "distinct_nontrivial": len(distinct) + ex_nontrivial,
@@ -405,6 +439,7 @@ def run(chk: Check) -> int:
         "generated": counts,
         "cases_by_kind": by_kind,
         "corpus_cases": ncorpus,
+        "failing_cases": len(bad),
         "interesting_states_cases": dict(sorted(interesting.items())),
         "get_indexes_max_reprobes_per_bucket": max_reprobe,
         "get_indexes_reprobe_histogram": reprobe_hist,
@@ -412,6 +447,7 @@ def run(chk: Check) -> int:
         "samples": list(samples.values())[:6],
         "trusted_base": TRUSTED,
         "partial": PARTIAL,
+        "phase_wall_s": phase_s,
         "correspondence_wall_s": round(vtime.REAL_PERF() - t0, 2),
     })
     chk.assumptions.extend(TRUSTED)
